@@ -53,6 +53,7 @@ def opsEntities (op : String) (j : Json) : Option (Except String Json) :=
       pure (Json.mkObj [("dataset", Json.bool (Spec.validDatasetName s)), ("property", Json.bool (Spec.validPropertyName s))])
   | "entities.ir" => some do
       pure (Json.mkObj [
+        ("fresh", Json.bool Gen.entityIrFresh),
         ("entityDeclBody", Json.str (toString (repr Gen.entityDeclBody))),
         ("savetoBody", Json.str (toString (repr Gen.savetoBody))),
         ("entityInstanceAttrs", Json.str (toString (repr Gen.entityInstanceAttrs))),
